@@ -244,8 +244,10 @@ def run_asgi(cfgname, ep, wrapped, path):
 
 
 def check_path(which, cfgname, ep, wrapped, path, ctx=None):
-    rep = {'app': which, 'static': cfgname, 'endpoint': ep, 'wrapped': wrapped, 'path': path}
     t = tree()
+    path = path.replace('{ROOT}', t['root'])
+    rep = {'app': which, 'static': cfgname, 'endpoint': ep, 'wrapped': wrapped,
+           'path': path.replace(t['root'], '{ROOT}')}
     mapping = configs()[cfgname]
     res = (run_wsgi if which == 'wsgi' else run_asgi)(cfgname, ep, wrapped, path)
     epn = norm_endpoint(ep)
@@ -425,6 +427,27 @@ def run_shard(ctx):
                             ctx.add_violation(v)
     ctx.notes.append('exhaustive over all paths of <= %d segments (x trailing slash) for %d '
                      'configurations' % (L, len(mains)))
+    # absolute paths of real files glued behind every mapped prefix (and empty segments)
+    t = tree()
+    idx2 = 0
+    for rel in ('secret.txt', 'other/x.txt', 'public/a.txt', 'single.html'):
+        ab = os.path.join(t['root'], rel)
+        for prefix in ('/static', '/static/', '/static//', '/static///', '', '/', '//',
+                       '/index.html/', '/static/sub/', '/static/sub//', '/engine.iox/'):
+            for path in (prefix + ab, prefix + ab.lstrip('/'), prefix + '/' + ab + '/'):
+                for which in ('wsgi', 'asgi'):
+                    for cfgname in ('dir', 'dir-slashes', 'files', 'rootdir', 'override',
+                                    'dir-dict-ct'):
+                        idx2 += 1
+                        if idx2 % ctx.nshards != ctx.shard:
+                            continue
+                        try:
+                            check_path(which, cfgname, 'engine.io', False, path, ctx)
+                        except Violation as v:
+                            if ctx.is_known(v):
+                                ctx.note_known(v)
+                            elif v.signature not in ctx.ignored:
+                                ctx.add_violation(v)
     seg = st.one_of(st.sampled_from(SEGS + ['eio', 'a', 'b', 'single.html', 'custom.html', 'other',
                                             'x.txt', 'inside.txt', '...', '..%2f', '%2e', ' ']),
                     st.text(alphabet='ab./%', max_size=4))
